@@ -53,13 +53,14 @@ type Runner struct {
 	Funcs   map[string][]string // contract address -> sorted function names
 	Blocks  int
 	SaveAll bool
+	Plan    *sim.Plan
 }
 
 func NewRunner(w *World) *Runner {
 	r := &Runner{W: w, Ops: map[string]func(r *Runner, st sim.Step){}, Funcs: map[string][]string{}}
 	// function names from the real cost tables
 	bs := w.NewBlock(w.Genesis, 0)
-	sc := w.stateContextOn(bs)
+	sc := w.StateContextOn(bs)
 	for _, a := range ContractAddrs() {
 		c := smartcontract.GetSmartContract(a)
 		if c == nil {
@@ -80,7 +81,7 @@ func NewRunner(w *World) *Runner {
 }
 
 // stateContextOn returns a scratch state context on a block under assembly.
-func (w *World) stateContextOn(bc *BlockCtx) *cstate.StateContext {
+func (w *World) StateContextOn(bc *BlockCtx) *cstate.StateContext {
 	t := &transaction.Transaction{ClientID: w.OwnerID, CreationDate: w.Now}
 	tc := statecache.NewTransactionCache(bc.Cache)
 	mpt := chainCreateTxnMPT(bc.State, tc)
@@ -179,7 +180,7 @@ func (r *Runner) ResolveNonce(kind int64, from string) int64 {
 	}
 }
 
-func (r *Runner) ensureBlock() {
+func (r *Runner) EnsureBlock() {
 	if r.BC == nil {
 		r.BC = r.W.NewBlock(nil, r.Blocks)
 	}
@@ -187,7 +188,7 @@ func (r *Runner) ensureBlock() {
 
 // Submit applies a transaction to the block under assembly.
 func (r *Runner) Submit(t *transaction.Transaction) *Outcome {
-	r.ensureBlock()
+	r.EnsureBlock()
 	o := r.BC.Apply(t)
 	if o.Err == nil {
 		r.Applied = append(r.Applied, t)
@@ -230,14 +231,14 @@ func (r *Runner) Step(st sim.Step) bool {
 	w := r.W
 	switch st.Op {
 	case "send":
-		r.ensureBlock()
+		r.EnsureBlock()
 		from, _ := w.Account(st.A)
 		to, _ := w.Account(int(st.Int(0, 0)))
 		t := w.MakeTxn(TxnSpec{From: from, To: to, Type: transaction.TxnTypeSend,
 			Value: r.ResolveValue(st.Int(1, VSmall), from), Fee: r.ResolveFee(st.Int(2, 0), from), Nonce: r.ResolveNonce(st.Int(3, 0), from)})
 		r.Submit(t)
 	case "call":
-		r.ensureBlock()
+		r.EnsureBlock()
 		from, _ := w.Account(st.A)
 		addrs := ContractAddrs()
 		addr := addrs[int(st.Int(0, 0))%len(addrs)]
@@ -251,13 +252,13 @@ func (r *Runner) Step(st sim.Step) bool {
 			Value: r.ResolveValue(st.Int(3, VZero), from), Fee: r.ResolveFee(st.Int(4, 0), from), Nonce: r.ResolveNonce(st.Int(5, 0), from)})
 		r.Submit(t)
 	case "pour":
-		r.ensureBlock()
+		r.EnsureBlock()
 		from, _ := w.Account(st.A)
 		t := w.MakeTxn(TxnSpec{From: from, To: AddrFaucet, Type: transaction.TxnTypeSmartContract, Name: "pour", Raw: "{}",
 			Value: r.ResolveValue(st.Int(0, VSmall), from), Fee: r.ResolveFee(st.Int(2, 2), from), Nonce: r.ResolveNonce(st.Int(1, 0), from)})
 		r.Submit(t)
 	case "data":
-		r.ensureBlock()
+		r.EnsureBlock()
 		from, _ := w.Account(st.A)
 		t := w.MakeTxn(TxnSpec{From: from, To: "", Type: transaction.TxnTypeData, Raw: "hello",
 			Fee: r.ResolveFee(st.Int(0, 0), from), Nonce: r.ResolveNonce(st.Int(1, 0), from)})
@@ -266,7 +267,7 @@ func (r *Runner) Step(st sim.Step) bool {
 		if len(r.Applied) == 0 {
 			return true
 		}
-		r.ensureBlock()
+		r.EnsureBlock()
 		old := r.Applied[int(st.Int(0, 0))%len(r.Applied)]
 		cp := old.Clone()
 		cp.Status = 0
@@ -275,7 +276,7 @@ func (r *Runner) Step(st sim.Step) bool {
 		w.Tr.Fault("replay_applied_txn")
 		r.Submit(cp)
 	case "block":
-		r.ensureBlock()
+		r.EnsureBlock()
 		r.EndBlock(st.Int(1, 0) != 0)
 	case "clock":
 		w.Now += common.Timestamp(st.Int(0, 1))
